@@ -45,8 +45,8 @@ def run_harness(exe, args, timeout):
 
 def model_key(c, drv, v):
     """The mechanism of a failed `repeat the get` case, decided on the MODEL: the model's own account of the first
-    call (branch taken, whether the new build list has the resolved version). Only these two mechanisms are known
-    findings (D15, D15b); every other idempotence failure stays a violation."""
+    call (branch taken, whether the new build list has the resolved version). Only these mechanisms are known
+    findings (D15, D15b, D15c); every other idempotence failure stays a violation."""
     if not drv or v.get("kind") != "get-not-idempotent" or not v.get("line"):
         return None
     try:
@@ -54,13 +54,14 @@ def model_key(c, drv, v):
         ans = outs[0].split(";")[int(v.get("step", 0))]
     except Exception:
         return None
-    # ok:<requirements>|<branch>|<resolved>|<landed>
+    # ok:<requirements>|<branch>|<resolved>|<landed>|<stable>
     f = ans.split("|")
-    if not ans.startswith("ok:") or len(f) != 4:
+    if not ans.startswith("ok:") or len(f) != 5:
         return None
-    branch, landed = f[1], f[3]
+    branch, landed, stable = f[1], f[3], f[4]
     if landed == "1":
-        return None
+        # the call landed, but the query itself resolves to another version against the new build list
+        return "get-query-reresolves" if stable == "0" else None
     if branch == "down":
         return "get-downgrade-did-not-land"
     if branch in ("add", "up"):
